@@ -15,14 +15,16 @@ echo "== demo without change"; PYTHONPATH=$WT MPLBACKEND=Agg timeout 300 $PY _se
 git -C $WT apply /tmp/seed_$ID.diff
 echo "demo rc with=$RC1 without=$RC0"
 echo "== repo tests with change"; (cd $WT && PYTHONPATH=$WT MPLBACKEND=Agg timeout 900 $PY -m pytest -q -p no:cacheprovider -W ignore verif/tests 2>&1 | tail -1) | tee /tmp/seed_$ID.tests
-mkdir -p /verif/seeded/$ID
-cp /tmp/seed_$ID.diff /verif/seeded/$ID/patch.diff
-cp $WT/_seed/demo.py /verif/seeded/$ID/demo.py
-cp $WT/_seed/meta.json /verif/seeded/$ID/meta.agent.json 2>/dev/null
-echo "== checks against the change"
-git -C /repo apply /verif/seeded/$ID/patch.diff || { echo "PATCH DOES NOT APPLY to /repo"; exit 2; }
+NAME=${SEED_NAME:-$ID}
+mkdir -p /verif/seeded/$NAME
+cp /tmp/seed_$ID.diff /verif/seeded/$NAME/patch.diff
+cp $WT/_seed/demo.py /verif/seeded/$NAME/demo.py
+cp $WT/_seed/meta.json /verif/seeded/$NAME/meta.agent.json 2>/dev/null
+echo "== checks against the change (scratch copy of /repo + patch, VERIF_REPO; /repo itself stays untouched)"
+COPY=/scratch/seedcopy_$NAME_$$
+rm -rf $COPY; mkdir -p /scratch; rsync -a --exclude .git --exclude __pycache__ /repo/ $COPY/
+(cd $COPY && patch -p1 -s < /verif/seeded/$NAME/patch.diff) || { echo "PATCH DOES NOT APPLY"; rm -rf $COPY; exit 2; }
 for P in $PROPS; do
-  (cd /verif && VERIF_NOSHRINK=1 VERIF_EVIDENCE_DIR=/tmp/seed_ev VERIF_REPLAY_DIR=/tmp/seed_rp $PY check.py $P --tier quick > /tmp/seed_$ID.$P.out 2>&1; echo "check $P rc=$?"; grep -E "^FAIL|quick:" /tmp/seed_$ID.$P.out | cut -c1-260 | head -6)
+  (cd /verif && VERIF_REPO=$COPY VERIF_NOSHRINK=1 VERIF_EVIDENCE_DIR=/tmp/seed_ev VERIF_REPLAY_DIR=/tmp/seed_rp $PY check.py $P --tier quick > /tmp/seed_$ID.$P.out 2>&1; echo "check $P rc=$?"; grep -E "^FAIL|quick:" /tmp/seed_$ID.$P.out | cut -c1-260 | head -6)
 done
-git -C /repo checkout -- .
-git -C /repo status --short | head -3
+rm -rf $COPY /tmp/seed_ev /tmp/seed_rp
